@@ -417,6 +417,24 @@ def explore(ctx, res):
             failing.append(r)
     # report the shortest witness of every distinct signature (at most 4 replays)
     failing.sort(key=lambda r: len(r["ops"]))
+    # the cases above ran side by side; a failure counts only if it also fails when it runs alone with four times the
+    # settle budget (the oracle's bounds are in protocol steps, the budget only covers goroutine scheduling on a busy host)
+    confirmed, flakes = [], 0
+    for r in failing:
+        if len(confirmed) >= 6:
+            break
+        mw, q = (6000, 60) if ctx["tier"] == "quick" and not ctx["deep"] else (8000, 80)
+        again = run_case(dict(r["case"], ops=r["ops"], model_ok=ctx["model_ok"]), mw * 4, q * 4)
+        if again["ok"]:
+            flakes += 1
+            continue
+        again["attempts"] = r["attempts"] + 1
+        again["failed_attempts"] = r["failed_attempts"] + [{"rule": again["rule"], "why": again["why"]}]
+        again["case"] = r["case"]
+        again["ops"] = r["ops"]
+        confirmed.append(again)
+    res.cov["not_confirmed_when_run_alone"] = flakes
+    failing = confirmed
     seen = set()
     for r in failing:
         snaps = r.get("snaps") or []
